@@ -74,6 +74,7 @@ IsStop(stop, t) ==
       [] stop.k = "brace" -> t.t = "brace_close" /\ t.arg = stop.arg
       [] stop.k = "math"  -> t.t = stop.tok /\ t.arg = stop.arg
       [] stop.k = "env"   -> t.t = "end_environment" /\ t.arg = stop.arg
+      [] stop.k = "mathany" -> t.t \in {"mathmode_inline", "mathmode_display"} /\ t.arg = stop.arg
 
 (* make_child_parsing_state of the enclosing delimited-expression parser *)
 SameChild == [mode |-> "same"]
